@@ -115,6 +115,16 @@ func VerifC03Forged() {
 		vstub.Cover("id-swap")
 	}
 
+	// optionally the attacker first announces a COPY of the writer's genuine entry whose
+	// claimed address is the forged entry's: it is refused (the content does not hash to
+	// it), and whatever verdict was computed on the way must not stick to that address
+	if vstub.NdChoice("spoofed-address-first", 2) == 1 {
+		sp := honest.Copy()
+		sp.SetHash(forged.GetHash())
+		_ = a.Sync(context.Background(), []ipfslog.Entry{sp})
+		vstub.WaitIdle()
+		vstub.Cover("spoofed-address-first")
+	}
 	route := vstub.NdChoice("route", 3)
 	if route == 2 {
 		// the attacker's own, honestly signed entry but written under ANOTHER log id,
